@@ -33,16 +33,21 @@ def make(cls, n):
 
 def apply(top, letter):
   reqs, en, reset = letter
-  top.reqs @= reqs
-  if hasattr(top, "en"): top.en @= en
-  top.reset @= reset
-  top.sim_eval_combinational()
-  g = int(top.grants)
-  top.sim_tick()
+  try:
+    top.reqs @= reqs
+    if hasattr(top, "en"): top.en @= en
+    top.reset @= reset
+    top.sim_eval_combinational()
+    g = int(top.grants)
+    top.sim_tick()
+  except Exception as ex:             # the implementation crashed: a verdict, not a machinery error
+    top._vt_dead = f"{type(ex).__name__}: {str(ex)[:100]}"
+    return -1
   return g
 
 
 def canon(top):
+  if getattr(top, "_vt_dead", None): return -1
   return int(top.priority_reg.out)
 
 
@@ -68,6 +73,8 @@ def step_fails(cls, n, c, letter, g, post):
   has_en = cls.endswith("En")
   fails = []
   reqs = letter[0]
+  if g == -1 or post == -1:
+    return [(f"{cls}:sim-raised", "no exception", "simulation raised", f"n={n} ptr={c} letter={letter}")]
   if c <= 0 or c & (c - 1) or c >= (1 << n):
     fails.append((f"{cls}:pointer-not-onehot", "one-hot", c, f"n={n}"))
     return fails
@@ -87,8 +94,10 @@ def explore(cls, n, acc):
   L = [(r, e, rs) for r in range(1 << n) for e in ((0, 1) if has_en else (1,)) for rs in (0, 1)]
 
   def on_step(hist, l, c, g, post):
-    for f in step_fails(cls, n, c, l, g, post):
+    fs = step_fails(cls, n, c, l, g, post)
+    for f in fs:
       acc.violation(f[0], dict(cls=cls, n=n, hist=[list(x) for x in hist], letter=list(l)), f[1], f[2], f[3])
+    return not fs
 
   res = bfs_history(lambda: make(cls, n), apply, canon, lambda c: L, on_step=on_step)
   acc.count("states", len(res.states)); acc.count("transitions", res.transitions)
@@ -110,6 +119,7 @@ def explore(cls, n, acc):
       for l in L:
         if not (l[0] >> i) & 1 or l[2]: continue      # i keeps requesting, no reset
         g, post = res.table[(c, l)]
+        if post not in res.states: continue            # pruned after an oracle failure
         if g == 1 << i: continue                       # granted: obligation met
         granting = g != 0 and post != c
         w2 = w + (1 if granting else 0)
